@@ -756,9 +756,12 @@ func c18JudgeKind(k *c18Kind, st *c18Stats) []c18Viol {
 				}
 			}
 		}
-		diff("eq", "equality", eo[0].eq, eo[1].eq, 1)
-		diff("ord", "ordering", eo[0].ord, eo[1].ord, 1)
-		diff("hash", "dict-key", eo[0].hsh, eo[1].hsh, 1)
+		// C18's sentence states the laws per engine; it does not ask the two
+		// engines to agree with each other (that is C34's sentence). The
+		// differential is therefore not judged here (coordinator decision; the
+		// one difference it found — equality of references to values without
+		// identity — is recorded under C34).
+		_ = diff
 	}
 	return viols
 }
